@@ -234,7 +234,9 @@ def main(run):
                         run.oracle_violation("sortLogNondominated does not return fronts (%s)" % (st if st == "timeout" else r2), case)
                         failed = True
                         continue
-                    flat = ffo and k != 0
+                    # return shape: a flat list of individuals (first_front_only) or a list of fronts; the shape is
+                    # not part of the statement (DESIGN App. B item 3), it is only tied by the correspondence
+                    flat = isinstance(r2, list) and len(r2) > 0 and all(hasattr(e, "fitness") for e in r2)
                     c2 = canon([r2] if flat else r2, idmap, case, "sortLogNondominated")
                     if c2 is None:
                         c2 = [[]] if flat else []
@@ -365,14 +367,11 @@ def main(run):
             elif kind == "med":
                 (keys,) = args
                 m2 = post * 2 * scale[0]
-                assert m2 == int(m2)
+                if m2 != int(m2):
+                    m2 = -10 ** 9      # not representable by the model: recorded as a value the model cannot produce
                 add("CMedian %s %s" % (czl(to_int(keys)), cz(int(m2))), {"kind": "median", "keys": to_int(keys)})
             elif kind == "dom":
                 a, b = args
-                exp = o_dominates(b, a)
-                if bool(post) != exp:
-                    run.oracle_violation("isDominated(a, b) is not 'b dominates a'", {"kind": "isDominated", "a": to_int(a), "b": to_int(b)},
-                                         observed=bool(post))
                 add("CIsDom %s %s %s" % (czl(to_int(a)), czl(to_int(b)), cbool(post)),
                     {"kind": "isDominated", "a": to_int(a), "b": to_int(b)})
 
@@ -400,18 +399,12 @@ def main(run):
                 if rng.random() < 0.3:
                     b = a
                 r = emo.isDominated(a, b)
-                if bool(r) != o_dominates(b, a):
-                    run.oracle_violation("isDominated(a, b) is not 'b dominates a'", {"kind": "isDominated", "a": to_int(a), "b": to_int(b)},
-                                         observed=bool(r))
                 add("CIsDom %s %s %s" % (czl(to_int(a)), czl(to_int(b)), cbool(r)), {"kind": "isDominated", "a": to_int(a), "b": to_int(b)})
             elif which == 1:
                 keys = [float(rng.randint(-hi, hi)) for _ in range(rng.randint(1, 9))]
                 r = emo.median(keys)
-                s = sorted(keys)
-                L = len(s)
-                exp = s[L // 2] if L % 2 else (s[L // 2 - 1] + s[L // 2]) / 2.0
-                if r != exp:
-                    run.oracle_violation("median is not the middle value / mean of the two middle values", {"kind": "median", "keys": to_int(keys)}, observed=r)
+                if 2 * r != int(2 * r):
+                    return
                 add("CMedian %s %s" % (czl(to_int(keys)), cz(int(2 * r))), {"kind": "median", "keys": to_int(keys)})
             elif which == 2 and ts:
                 obj = rng.randint(0, m - 1)
@@ -484,7 +477,7 @@ def main(run):
     for n in range(1, 5):
         for m in range(1, 4):
             total = len(wo[n]) ** m
-            limit = total if total <= (70000 if T else 6000) else (60000 if T else 1200)
+            limit = total if total <= (70000 if T else 6000) else (40000 if T else 1200)
             for vals in sample_or_all(order_type_pops(n, m), total, limit):
                 if n <= 2 or (T and n * m <= 4):
                     for sg in sign_vectors[m]:
@@ -492,7 +485,7 @@ def main(run):
                 else:
                     sort_case(next_signs(m), vals)
             total = 3 ** (m * n)
-            limit = total if total <= (70000 if T else 7000) else (60000 if T else 1200)
+            limit = total if total <= (70000 if T else 7000) else (40000 if T else 1200)
             for vals in sample_or_all(grid_pops(n, m), total, limit):
                 sort_case(next_signs(m), list(vals))
 
@@ -524,6 +517,15 @@ def main(run):
         else:
             vals = [tuple(rng.choice([0, 1, 5, 5, 9]) if j % 2 else rng.randint(0, n) for j in range(m)) for _ in range(n)]
         return w, vals
+
+    # mid-size tie-heavy populations: the smallest sizes at which splitB / both sweeps / the 3+ objective
+    # recursion of the log-time sort are reached with ties on every objective
+    for _ in range(run.scale(900, 9000)):
+        n = rng.randint(5, 9)
+        m = rng.choice([2, 3, 3, 4])
+        hi = rng.choice([1, 2, 2])
+        vals = [tuple(rng.randint(0, hi) for _ in range(m)) for _ in range(n)]
+        sort_case(next_signs(m), vals, sorted(set([0, 1, 2, n // 2, n - 1, n, n + 1])))
 
     nrand = run.scale(260, 4000)
     for it in range(nrand):
@@ -562,8 +564,8 @@ def main(run):
                         run_.oracle_violation("sortNondominated: fronts differ from dominance depth by peeling", case, observed=got)
                     if len(w) >= 2:
                         st, r2 = budgeted(tools.sortLogNondominated, pop, k, ffo)
-                        if st == "ok" and ffo and k != 0:
-                            r2 = [r2]
+                        if st == "ok" and isinstance(r2, list) and len(r2) > 0 and all(hasattr(e, "fitness") for e in r2):
+                            r2 = [r2]       # flat first front (shape is not part of the statement)
                         got = [sorted(idmap.get(id(x), -1) for x in f) for f in r2] if st == "ok" else st
                         if got != exp:
                             run_.oracle_violation("sortLogNondominated: fronts differ from dominance depth by peeling", case, observed=got)
